@@ -95,17 +95,38 @@ def creators(chk):
         return None
     for mm, nn in found["other-trio"]:
         chk.bad("O11.2", query.where(prog, mm, nn), "a guest-mode trio run is started here", node=nn, stmt="guest-run")
-    # the function containing trio.run is referenced exactly once: as the callable of run_in_executor in manage_payloads
+    mp = prog.lookup_method(fi.cls, "manage_payloads")
+    ok = True
+    par_fi = util.parents_map(fi.node)
+    if not isinstance(n, ast.Call):
+        # trio.run is HANDED to something: accepted only as  run_in_executor(<executor>, trio.run, <entry coroutine function>)
+        up = par_fi.get(id(n))
+        handed_ok = isinstance(up, ast.Call) and isinstance(up.func, ast.Attribute) and up.func.attr == "run_in_executor" and len(up.args) >= 3 and up.args[1] is n
+        if not handed_ok:
+            chk.bad("O11.2", w, "trio.run is handed to %s: not the run_in_executor(None, trio.run, <entry>) form" % (util.unparse(up)[:80] if up is not None else "?"), node=n, stmt="trio-run-handed")
+            ok = False
+        elif fi is not mp:
+            chk.bad("O11.2", w, "the trio run is started through an executor from %s instead of manage_payloads" % fi.name, node=n, stmt="trio-run-start")
+            ok = False
+        elif util.enclosing(par_fi, up, (ast.For, ast.While, ast.AsyncFor)) is not None:
+            chk.bad("O11.2", w, "the trio run is started inside a loop", node=n, stmt="trio-run-loop")
+            ok = False
+        elif not isinstance(par_fi.get(id(up)), ast.Await):
+            chk.bad("O11.2", w, "the executor future of the trio run is not awaited by manage_payloads", node=n, stmt="trio-run-not-awaited")
+            ok = False
+        if ok:
+            chk.ok("O11.2", w, "exactly one trio.run, handed once per runner run to run_in_executor by manage_payloads", node=n)
+            fi._trio_entry_args = [up.args[2]]
+        return fi if ok else None
+    # the function containing trio.run(...) is referenced exactly once: as the callable of run_in_executor in manage_payloads
     refs = []
     for mm in prog.modules.values():
         for x in ast.walk(mm.tree):
             if isinstance(x, ast.Attribute) and x.attr == fi.name and not isinstance(x.ctx, ast.Store):
                 refs.append((mm, x))
     chk.count(len(refs))
-    mp = prog.lookup_method(fi.cls, "manage_payloads")
-    ok = True
-    if fi is mp:
-        chk.bad("O11.2", w, "trio.run is called directly in manage_payloads: it blocks the asyncio loop thread", node=n, stmt="trio-run-blocks-loop")
+    if fi is mp or fi.is_async:
+        chk.bad("O11.2", w, "trio.run is called directly in %s: it blocks the asyncio loop thread" % fi.name, node=n, stmt="trio-run-blocks-loop")
         ok = False
     elif len(refs) != 1:
         chk.bad("O11.2", w, "%s (which starts the trio run) is referenced %d times: the trio run can be started more than once per runner run" % (fi.name, len(refs)), node=n, stmt="trio-run-refs")
@@ -125,7 +146,33 @@ def creators(chk):
                 ok = False
     if ok:
         chk.ok("O11.2", w, "exactly one trio.run, started once per runner run through run_in_executor from manage_payloads", node=n)
+    fi._trio_entry_args = [n.args[0]] if n.args else []
     return fi
+
+
+def trio_owned(prog, cls, entry_names):
+    """the entry coroutine function(s) of the trio run plus the own methods that are ONLY called (awaited) from them"""
+    own = set(entry_names)
+    changed = True
+    while changed:
+        changed = False
+        for fis in cls.methods.values():
+            for f in fis:
+                if f.name in own:
+                    continue
+                refs = []
+                for g_ in (x for xs in cls.methods.values() for x in xs):
+                    par = util.parents_map(g_.node)
+                    for x in ast.walk(g_.node):
+                        if isinstance(x, ast.Attribute) and x.attr == f.name and isinstance(x.value, ast.Name) and x.value.id == "self":
+                            up = par.get(id(x))
+                            called = isinstance(up, ast.Call) and up.func is x
+                            awaited = called and isinstance(par.get(id(up)), ast.Await)
+                            refs.append((g_.name, awaited if f.is_async else called))
+                if refs and all(name in own and good for name, good in refs):
+                    own.add(f.name)
+                    changed = True
+    return own
 
 
 def routing(chk, trio_entry):
@@ -174,18 +221,18 @@ def routing(chk, trio_entry):
             real.append(n)
         chk.count(len(toks))
         entry_targets = set()
-        for n in ast.walk(trio_entry.node):
-            if isinstance(n, ast.Call) and prog.resolve(trio_entry.module, n.func) == "ext:trio.run" and n.args:
-                d = dotted(n.args[0])
-                if d and d.startswith("self."):
-                    entry_targets.add(d.split(".", 1)[1])
+        for a in getattr(trio_entry, "_trio_entry_args", []):
+            d = dotted(a)
+            if d and d.startswith("self."):
+                entry_targets.add(d.split(".", 1)[1])
+        owned = trio_owned(prog, cls, entry_targets)
         if len(real) != 1:
             good = False
             chk.bad(rule, cls.qual, "the trio token is assigned %d times (required: once, inside the single trio run)" % len(real), node=real[-1] if real else cls.node, stmt="token-stores")
         else:
             n = real[0]
             fn = prog.enclosing_function(cls.module, n)
-            if not (isinstance(n.value, ast.Call) and prog.resolve(cls.module, n.value.func) == "ext:trio.lowlevel.current_trio_token" and fn is not None and fn.name in entry_targets):
+            if not (isinstance(n.value, ast.Call) and prog.resolve(cls.module, n.value.func) == "ext:trio.lowlevel.current_trio_token" and fn is not None and fn.name in owned):
                 good = False
                 chk.bad(rule, cls.qual, "the trio token is not taken from current_trio_token() inside the function run by trio.run", node=n, stmt="token-source")
         # trio payloads are only started by start_soon on the nursery opened in that function
@@ -197,9 +244,20 @@ def routing(chk, trio_entry):
                         starts.append((f, n))
         for f, n in starts:
             chk.count()
-            if f.name not in entry_targets:
+            if f.name not in owned:
                 good = False
-                chk.bad(rule, f.qual, "a trio payload is started outside the function that owns the single nursery", node=n, stmt="start-outside")
+                chk.bad(rule, f.qual, "a trio payload is started outside the function(s) that make up the single trio run", node=n, stmt="start-outside")
+        # one nursery for all payloads: opened once, not inside a loop, in the functions that make up the trio run
+        nurseries = []
+        for fis in cls.methods.values():
+            for f in fis:
+                par = util.parents_map(f.node)
+                for n in ast.walk(f.node):
+                    if isinstance(n, ast.Call) and prog.resolve(cls.module, n.func) == "ext:trio.open_nursery":
+                        nurseries.append((f, n, util.enclosing(par, n, (ast.For, ast.While, ast.AsyncFor)) is not None))
+        if starts and (len(nurseries) != 1 or nurseries[0][2] or nurseries[0][0].name not in owned):
+            good = False
+            chk.bad(rule, cls.qual, "the trio payloads are not all children of ONE nursery opened once inside the trio run (%d open_nursery sites%s)" % (len(nurseries), ", one inside a loop" if any(x[2] for x in nurseries) else ""), node=nurseries[-1][1] if nurseries else cls.node, stmt="nursery-count")
         if good:
             chk.ok(rule, cls.qual, "the trio token is assigned once from current_trio_token() inside the single run; payloads start only on its nursery", node=cls.node)
 
@@ -336,7 +394,163 @@ def no_blocking(chk):
         chk.ok(rule, "<package>", "none of the %d functions that run on the loop / trio thread calls a blocking threading primitive" % n)
 
 
+LOCK_CTORS = {"ext:threading.Lock", "ext:threading.RLock", "ext:threading.Condition", "ext:threading.Semaphore", "ext:threading.BoundedSemaphore"}
+WAIT_ATTRS = {"result", "join", "wait", "acquire", "get", "run_payload", "execute"}
+WAIT_NAMES = {"ext:trio.from_thread.run", "ext:trio.from_thread.run_sync", "ext:time.sleep", "ext:concurrent.futures.wait", "ext:asyncio.run"}
+
+LOCK_CONTROL = '''
+import threading, functools
+def locked(method):
+    @functools.wraps(method)
+    def wrapper(self, *args, **kwargs):
+        with self._guard:
+            return method(self, *args, **kwargs)
+    return wrapper
+class K:
+    def __init__(self):
+        self._guard = threading.RLock()
+        self._other = threading.Lock()
+    @locked
+    def waits(self, fut):
+        return fut.result()
+    def quick(self):
+        with self._other:
+            self.n = 1
+    def direct(self, fut):
+        with self._other:
+            fut.result()
+'''
+
+
+def lock_sections(prog, modules):
+    """(lock name, FuncInfo-or-node owner name, with-body statements, function node) for every `with <threading lock>` --
+    directly in a function, or around the wrapped call in a decorator applied to it"""
+    locks = set()
+    for m in modules:
+        for n in ast.walk(m.tree):
+            if isinstance(n, (ast.Assign, ast.AnnAssign)) and isinstance(n.value, ast.Call) and prog.resolve(m, n.value.func) in LOCK_CTORS:
+                for t in n.targets if isinstance(n, ast.Assign) else [n.target]:
+                    if isinstance(t, ast.Attribute):
+                        locks.add(t.attr)
+                    elif isinstance(t, ast.Name):
+                        locks.add(t.id)
+
+    def lock_of(expr):
+        d = dotted(expr) or ""
+        last = d.split(".")[-1]
+        return last if last in locks else None
+
+    sections = []
+    decorators = {}  # decorator function name -> (lock, wrapper node)
+    for m in modules:
+        for f in ast.walk(m.tree):
+            if not isinstance(f, (ast.FunctionDef, ast.AsyncFunctionDef)):
+                continue
+            for w in util.walk_no_nested(f):
+                if isinstance(w, (ast.With, ast.AsyncWith)):
+                    for item in w.items:
+                        lk = lock_of(item.context_expr)
+                        if lk:
+                            sections.append((lk, m, f, w.body))
+        # decorator shape: def deco(method): def wrapper(...): with <lock>: return method(...)
+        for f in m.tree.body:
+            if isinstance(f, ast.FunctionDef) and f.args.args:
+                wrapped = f.args.args[0].arg
+                for inner in f.body:
+                    if isinstance(inner, ast.FunctionDef):
+                        for w in ast.walk(inner):
+                            if isinstance(w, (ast.With, ast.AsyncWith)):
+                                for item in w.items:
+                                    lk = lock_of(item.context_expr)
+                                    if lk and any(isinstance(c, ast.Call) and isinstance(c.func, ast.Name) and c.func.id == wrapped for st in w.body for c in ast.walk(st)):
+                                        decorators[f.name] = lk
+    for m in modules:
+        for f in ast.walk(m.tree):
+            if isinstance(f, (ast.FunctionDef, ast.AsyncFunctionDef)):
+                for d in f.decorator_list:
+                    name = (dotted(d.func if isinstance(d, ast.Call) else d) or "").split(".")[-1]
+                    if name in decorators:
+                        sections.append((decorators[name], m, f, f.body))
+    return locks, sections
+
+
+def waits_in(prog, m, stmts):
+    out = []
+    for st in stmts:
+        awaited = {id(n.value) for n in ast.walk(st) if isinstance(n, ast.Await)}
+        for c in ast.walk(st):
+            if not isinstance(c, ast.Call) or id(c) in awaited:
+                continue
+            r = prog.resolve(m, c.func)
+            if r in WAIT_NAMES:
+                out.append(util.unparse(c.func))
+            elif isinstance(c.func, ast.Attribute) and c.func.attr in WAIT_ATTRS and not (r or "").startswith("ext:builtins"):
+                kws = {k.arg for k in c.keywords}
+                if c.func.attr in ("result", "get", "wait", "join", "acquire") and (c.args or kws & {"timeout", "blocking", "block"}):
+                    continue  # bounded / keyed (dict.get(key), join(iterable))
+                out.append(util.unparse(c.func))
+    return out
+
+
+def lock_across_wait(chk):
+    """O11.6: no lock that code on the loop thread / trio thread takes is held elsewhere across an unbounded wait
+    (execute's wait for its payload, a join, a blocking from_thread call)"""
+    prog = chk.program
+    rule = "O11.6"
+    ctl = query.adhoc_module(prog, LOCK_CONTROL)
+    locks, secs = lock_sections(prog, [ctl])
+    got = sorted((lk, f.name, bool(waits_in(prog, ctl, body))) for lk, _m, f, body in secs)
+    if locks != {"_guard", "_other"} or got != [("_guard", "waits", True), ("_guard", "wrapper", False), ("_other", "direct", True), ("_other", "quick", False)]:
+        chk.undecided(rule, "<positive control>", "the lock-section matcher does not behave as expected on its control example: %s" % got)
+        return
+    chk.ok(rule, "<positive control>", "matcher finds with-lock sections (direct and through a wrapping decorator) and the unbounded waits inside them")
+    mods = [m for m in prog.modules.values() if m.name.startswith("cobald")]
+    locks, secs = lock_sections(prog, mods)
+    g = CallGraph(prog)
+    chk.count(len(secs))
+    by_lock = {}
+    for lk, m, f, body in secs:
+        qual = query.where(prog, m, f.body[0]) if f.body else None
+        fi = prog.functions.get(qual) if qual else None
+        ctx = set(g.contexts.get(fi.qual, ())) if fi is not None else set()
+        # waits directly in the section or in the package functions it calls
+        w = waits_in(prog, m, body)
+        if fi is not None:
+            ltypes = g.local_types(fi)
+            start = set()
+            for st in body:
+                for c in ast.walk(st):
+                    if isinstance(c, ast.Call):
+                        for t in g.targets(fi, c.func, ltypes):
+                            if not t.is_async:
+                                start.add(t.qual)
+            for q in g.reachable(sorted(start)):
+                cf = prog.functions.get(q)
+                # the submission hop of register_payload (from_thread.run(send) into the unbounded channel, O3.8) is bounded
+                if cf is not None and not cf.is_async and cf.name != "register_payload":
+                    w += ["%s -> %s" % (cf.name, x) for x in waits_in(prog, cf.module, cf.node.body)]
+        by_lock.setdefault(lk, []).append((fi, f, ctx, w))
+    bad = False
+    for lk, items in sorted(by_lock.items()):
+        holders = [(fi, f, w) for fi, f, ctx, w in items if w]
+        loopers = [(fi, f, ctx) for fi, f, ctx, w in items if ctx & {LOOP, TRIO}]
+        for hfi, hf, w in holders:
+            for lfi, lf, ctx in loopers:
+                bad = True
+                chk.bad(
+                    rule,
+                    (hfi.qual if hfi else hf.name),
+                    "the lock `%s` is held in %s across an unbounded wait (%s) and is also taken in %s, which runs in context %s: while a thread waits there (e.g. in execute for a blocking payload), every coroutine payload that reaches %s stalls"
+                    % (lk, hf.name, w[0], lf.name, sorted(ctx & {LOOP, TRIO}), lf.name),
+                    node=hf,
+                    stmt="lock %s held across wait; taken on %s" % (lk, sorted(ctx & {LOOP, TRIO})),
+                )
+    if not bad:
+        chk.ok(rule, "<package>", "%d threading locks, %d lock sections: none is both held across an unbounded wait and taken on the loop / trio thread" % (len(locks), len(secs)))
+
+
 def run(chk):
+    chk.guard("O11.6", "<locks>", lock_across_wait, chk)
     chk.guard("O11.5", "<blocking>", no_blocking, chk)
     entry = chk.guard("O11.1", "<package>", creators, chk)
     chk.guard("O11.3", "<routing>", routing, chk, entry)
